@@ -131,6 +131,9 @@ def cases(tier, seed):
         if tier == 'quick' and load != 'biaxial' and (fb == 'CCCC' or (m, n) == (7, 9)):
             continue
         out.append(dict(kind='panel', model=model, fbase=fb, m=m, n=n, num=num, sparse=sparse, load=load, seed=seed))
+        if load == 'biaxial' and (m, n) == (8, 7):
+            # the same Panel object analysed first with other edge restraints (amplitudes active there are null afterwards)
+            out.append(dict(kind='panel', model=model, fbase=fb, m=m, n=n, num=num, sparse=sparse, load=load, reuse=1, seed=seed))
     for model, alpha, num, comb in itertools.product(['clpt_donnell_bc1', 'clpt_donnell_bc3', 'fsdt_donnell_bc1'], [0., 25.], [1, 4], [0, 1, 2]):
         out.append(dict(kind='shell', model=model, alpha=alpha, num=num, comb=comb, seed=seed))
     return out
@@ -228,12 +231,21 @@ def check_pair(case):
     execs = 1
     # scale edge: KG -> s KG  =>  lambda -> lambda / s
     if not fails and ordered and case['kg'] != 'mixed':
-        s = 0.4          # scaling down keeps the reference load sub-critical
-        vals2, vecs2 = lb(K, csr_matrix(s * KGd), silent=True, sparse_solver=bool(case['sparse']), num_eigvalues=case['num'])
-        execs += 1
-        kk = min(len(vals), len(vals2), case['num'])
-        if np.abs(np.real(vals2[:kk]) * s - np.real(vals[:kk])).max() > rtol * np.abs(vals[:kk]).max():
-            fails.append(fail('scaling the reference load by s does not divide the multipliers by s', sig=None, case=case))
+        # scaling down keeps the reference load sub-critical; 1e-6: a reference load far below the critical one (multipliers ~1e6..1e8)
+        for s in (0.4, 1.0e-6):
+            if s < 1e-3 and (case.get('chain') or case.get('spec') == 'decades'):
+                continue          # ill-conditioned K: the fixed shift of the sparse path limits the attainable accuracy of huge multipliers
+            try:
+                vals2, vecs2 = call_lb(lb, K, csr_matrix(s * KGd), silent=True, sparse_solver=bool(case['sparse']), num_eigvalues=case['num'])
+            except NoAnswer:
+                continue
+            execs += 1
+            kk = min(len(vals), len(vals2), case['num'])
+            if not np.all(np.isfinite(np.real(vals2[:kk]))) or \
+                    np.abs(np.real(vals2[:kk]) * s - np.real(vals[:kk])).max() > max(rtol, 1e-5 if s < 1e-3 else 0) * np.abs(vals[:kk]).max():
+                fails.append(fail('scaling the reference load by s does not divide the multipliers by s', sig=None, case=case, s=s,
+                                  got=np.real(vals2[:kk]), expected=np.real(vals[:kk]) / s))
+                break
     return dict(fails=fails[:4], execs=execs, transitions=execs, nontrivial=int(len(set(np.round(lam[lam > 0], 6))) > 1))
 
 
@@ -243,6 +255,13 @@ def check_panel(case):
     cfg = dict(model=case['model'], a=0.6, b=0.4, r=1.5, lam='cross_sym', m=case['m'], n=case['n'], fbase=case['fbase'], seed=case['seed'])
     fails = []
     p = pan.make_panel(cfg)
+    if case.get('reuse'):
+        p = pan.make_panel(dict(cfg, fbase='FFFF' if case['fbase'] != 'CFFF' else 'SSSS'))
+        p.u1tx = p.v1tx = p.w1tx = p.w1rx = 0.          # keep the first problem restrained (positive definite)
+        p.Nxx, p.Nyy, p.Nxy = -1.0, -0.3, 0.
+        p.num_eigvalues = case['num']
+        p.lb(silent=True, sparse_solver=bool(case['sparse']))
+        pan.retarget(p, cfg)
     p.Nxx, p.Nyy, p.Nxy = dict(biaxial=(-1.0, -0.3, 0.), shear=(0., 0., -1.0), comp_tens=(-1.0, 0.6, 0.2))[case.get('load', 'biaxial')]
     p.num_eigvalues = case['num']
     K, KG = p.calc_k0(silent=True), p.calc_kG0(silent=True)
